@@ -91,6 +91,7 @@ def _emb(hw, thunk):
     after the block under observation is instantiated"""
     if _HOOK: _HOOK('pre', hw)
     obj = thunk()
+    if _HOOK and hasattr(_HOOK, 'on_block'): _HOOK.on_block(hw, obj)
     if _HOOK: _HOOK('post', hw)
     return obj
 
@@ -126,8 +127,18 @@ class Embed:
             a = self.slice(hw, 'drv_a%d' % j, width)
             g = self.rng.choice(sorted(GATES))
             b = hw.wire('ext%d' % j, width) if self.mode == 'ext' else self.slice(hw, 'drv_b%d' % j, width)
-            {'xor': py4hw.Xor2, 'and': py4hw.And2, 'or': py4hw.Or2}[g](hw, 'drv_g%d' % j, a, b, tgt)
+            if self.mode == 'regdom':
+                # the block's input is the OUTPUT OF A REGISTER of the system clock domain, and the block itself sits in a clock domain of
+                # its own (on_block): at an edge it must sample the value that register held BEFORE the edge, whichever domain is clocked first
+                pre = hw.wire('drv_p%d' % j, width)
+                {'xor': py4hw.Xor2, 'and': py4hw.And2, 'or': py4hw.Or2}[g](hw, 'drv_g%d' % j, a, b, pre)
+                py4hw.Reg(hw, 'drv_r%d' % j, pre, tgt)
+            else:
+                {'xor': py4hw.Xor2, 'and': py4hw.And2, 'or': py4hw.Or2}[g](hw, 'drv_g%d' % j, a, b, tgt)
             self.src.append(a); self.ext.append(b); self.gate.append(g)
+    def on_block(self, hw, obj):
+        if self.mode == 'regdom' and isinstance(obj, P().Logic):
+            obj.clockDriver = P().ClockDriver('clk_blk', base=hw.clockDriver)
     def __call__(self, stage, hw):
         if stage == 'pre':
             if self.order in ('sources_first', 'mixed'): self.core(hw)
@@ -796,7 +807,7 @@ def sweep(ctx, tier_quick, only=None, boost=1):
         pick = cfgs if not tier_quick else [cfgs[0], cfgs[len(cfgs) // 2], cfgs[-1]]
         for ci, p0 in enumerate(pick):
             for order in ('block_first', 'sources_first', 'mixed'):
-                for mode in ('auto', 'ext'):
+                for mode in ('auto', 'ext', 'regdom'):
                     p = dict(p0)
                     seed = ctx.seed * 1009 + ci * 31 + boost
                     try:
